@@ -224,6 +224,13 @@ def world(ctx, rng_seed, m, ps, origin, kshape, shared=None):
             ctx.check(got.shape == g0.shape and bool(np.all(np.abs(got - (g0 - np.asarray(off, float))) <= tol_)), "covariance:Grid2D.subtracted_from",
                       result="subtracted." + nm, kind="translation by -offset", offset=np.asarray(off, float), mask=m, origin=o)
             ob.coord("Grid2D.subtracted_from", "subtracted_axis." + nm, gs)
+        # re-centring: the offset equals the frame origin, so the shifted frame sits exactly at (0.0, 0.0) - values and frame
+        gs0 = aa.Grid2D.from_mask(mask=mask).subtracted_from(offset=(float(o[0]), float(o[1])))
+        got0 = np.array(_np(gs0), dtype=float)
+        org0 = np.array([float(v) for v in gs0.mask.origin])
+        ctx.check(got0.shape == g0.shape and bool(np.all(np.abs(got0 - (g0 - o)) <= tol_)) and bool(np.all(np.abs(org0) <= tol_)),
+                  "covariance:Grid2D.subtracted_from", result="subtracted.offset_equal_to_the_origin", kind="values and frame origin",
+                  frame_origin_of_result=org0, expected_frame_origin=[0.0, 0.0], mask=m, origin=o)
     run("Grid2D.subtracted_from", subtracted_axis)
 
     def radial_bins():
